@@ -30,6 +30,13 @@ theorem cur_state_registry :
     (a structural check of all function declarations and literals, on the source as written). -/
 theorem cur_locks_balanced : Skeleton.current.locksBalanced = true := by decide
 
+/-- Error branches: in the models every failing operation (marshal, unmarshal, write, read, resolve, convert)
+    has exactly the outcome written next to it — `setErr`, a panic that the stub recovers, or an error result.
+    In the source that is an `if err != nil { … }` per operation; each of them reports the error with one of
+    its own statements and then leaves (a structural check over all of them): none is empty, none reports
+    only under a further condition, none falls through into the success path. -/
+theorem cur_error_branches_handled : Skeleton.current.errBranchesHandled = true := by decide
+
 /-- …and there is no mutable package-level state (nothing a model would have to share between registries). -/
 theorem cur_state_no_globals : Skeleton.current.stateGlobals = [] := by decide
 
@@ -37,6 +44,7 @@ end Panrpc.State
 
 #print axioms Panrpc.State.cur_state_no_globals
 #print axioms Panrpc.State.cur_locks_balanced
+#print axioms Panrpc.State.cur_error_branches_handled
 
 #print axioms Panrpc.State.cur_state_broadcaster
 #print axioms Panrpc.State.cur_state_closure_manager
